@@ -2,6 +2,60 @@ import Pxv.Model.Rules
 /-! Helper lemmas for C08: the worklist closure and the DFS cycle search of `Pxv/Model/Rules.lean`. -/
 namespace Pxv.Rules
 
+/-! ## counting -/
+
+theorem length_filterMap_pos {α β} {f : α → Option β} {l : List α} {a : α} (ha : a ∈ l)
+    (hfa : (f a).isSome = true) : 0 < (l.filterMap f).length := by
+  obtain ⟨b, hb⟩ := Option.isSome_iff_exists.mp hfa
+  have : b ∈ l.filterMap f := List.mem_filterMap.mpr ⟨a, ha, hb⟩
+  exact List.length_pos_of_mem this
+
+theorem two_le_length_filterMap {α β} {f : α → Option β} : ∀ {l : List α} {a b : α},
+    a ∈ l → b ∈ l → a ≠ b → (f a).isSome = true → (f b).isSome = true → 2 ≤ (l.filterMap f).length := by
+  intro l
+  induction l with
+  | nil => intro a b ha; cases ha
+  | cons x l ih =>
+    intro a b ha hb hab hfa hfb
+    have hmono : (l.filterMap f).length ≤ ((x :: l).filterMap f).length := by
+      rw [List.filterMap_cons]; split <;> simp
+    rcases List.mem_cons.mp ha with rfl | ha'
+    · rcases List.mem_cons.mp hb with e | hb'
+      · exact absurd e.symm hab
+      · obtain ⟨y, hy⟩ := Option.isSome_iff_exists.mp hfa
+        rw [List.filterMap_cons, hy]
+        have := length_filterMap_pos hb' hfb
+        simp; omega
+    · rcases List.mem_cons.mp hb with rfl | hb'
+      · obtain ⟨y, hy⟩ := Option.isSome_iff_exists.mp hfb
+        rw [List.filterMap_cons, hy]
+        have := length_filterMap_pos ha' hfa
+        simp; omega
+      · exact Nat.le_trans (ih ha' hb' hab hfa hfb) hmono
+
+theorem two_le_length_filter {α} {p : α → Bool} : ∀ {l : List α} {k1 k2 : Nat} {a b : α},
+    k1 < k2 → l[k1]? = some a → l[k2]? = some b → p a = true → p b = true → 2 ≤ (l.filter p).length := by
+  intro l
+  induction l with
+  | nil => intro k1 k2 a b _ h; simp at h
+  | cons x l ih =>
+    intro k1 k2 a b hlt h1 h2 pa pb
+    cases k2 with
+    | zero => omega
+    | succ k2 =>
+      simp only [List.getElem?_cons_succ] at h2
+      cases k1 with
+      | zero =>
+        simp only [List.getElem?_cons_zero, Option.some.injEq] at h1
+        subst h1
+        have hb : b ∈ l.filter p := List.mem_filter.mpr ⟨List.mem_of_getElem? h2, pb⟩
+        have := List.length_pos_of_mem hb
+        simp [List.filter_cons, pa]; omega
+      | succ k1 =>
+        simp only [List.getElem?_cons_succ] at h1
+        have := ih (Nat.lt_of_succ_lt_succ hlt) h1 h2 pa pb
+        rw [List.filter_cons]; split <;> simp <;> omega
+
 /-! ## `enq` -/
 
 theorem enq_mono (next todo rem : List Nat) {x : Nat} (h : x ∈ todo) : x ∈ enq next todo rem := by
@@ -186,25 +240,33 @@ theorem closure_complete (succ : Nat → List Nat) (n : Nat) (roots : List Nat) 
 
 /-! ## DFS cycle search -/
 
-/-- a path with at least one edge. -/
-inductive Path1 (adj : List (List Nat)) : Nat → Nat → Prop
-  | single {a b : Nat} : b ∈ succOf adj a → Path1 adj a b
-  | cons {a b c : Nat} : b ∈ succOf adj a → Path1 adj b c → Path1 adj a c
+/-- a path with at least one edge in the graph given by a successor function. -/
+inductive PathS (succ : Nat → List Nat) : Nat → Nat → Prop
+  | single {a b : Nat} : b ∈ succ a → PathS succ a b
+  | cons {a b c : Nat} : b ∈ succ a → PathS succ b c → PathS succ a c
 
-def OnCycle (adj : List (List Nat)) (v : Nat) : Prop := Path1 adj v v
-def HasCycle (adj : List (List Nat)) : Prop := ∃ v, OnCycle adj v
-
-theorem Path1.snoc {adj : List (List Nat)} {a b c : Nat} (h : Path1 adj a b) (e : c ∈ succOf adj b) :
-    Path1 adj a c := by
+theorem PathS.snoc {succ : Nat → List Nat} {a b c : Nat} (h : PathS succ a b) (e : c ∈ succ b) :
+    PathS succ a c := by
   induction h with
   | single e1 => exact .cons e1 (.single e)
   | cons e1 _ ih => exact .cons e1 (ih e)
 
-theorem Path1.trans {adj : List (List Nat)} {a b c : Nat} (h : Path1 adj a b) (h2 : Path1 adj b c) :
-    Path1 adj a c := by
+theorem PathS.trans {succ : Nat → List Nat} {a b c : Nat} (h : PathS succ a b) (h2 : PathS succ b c) :
+    PathS succ a c := by
   induction h with
   | single e1 => exact .cons e1 h2
   | cons e1 _ ih => exact .cons e1 (ih h2)
+
+/-- a path stays a path in any graph that agrees with the first one on a set closed under its edges. -/
+theorem PathS.transfer {f g : Nat → List Nat} {P : Nat → Prop}
+    (hstep : ∀ a b, P a → b ∈ f a → b ∈ g a ∧ P b) {a c : Nat} (ha : P a) (h : PathS f a c) :
+    PathS g a c := by
+  induction h with
+  | single e => exact .single (hstep _ _ ha e).1
+  | cons e _ ih => exact .cons (hstep _ _ ha e).1 (ih (hstep _ _ ha e).2)
+
+def OnCycle (adj : List (List Nat)) (v : Nat) : Prop := PathS (succOf adj) v v
+def HasCycle (adj : List (List Nat)) : Prop := ∃ v, OnCycle adj v
 
 theorem onCycle_succ {adj : List (List Nat)} {v : Nat} (h : OnCycle adj v) :
     ∃ w ∈ succOf adj v, OnCycle adj w := by
